@@ -343,7 +343,7 @@ def _handcoded_native(vk, cfg):
 
 # ================================================================================================
 # linear elasticity
-LIN_CONFIGS = [dict(case=c) for c in ("3d-variants", "plane-stress", "plane-strain", "orthotropic-compliance", "orthotropic-svk", "lame")]
+LIN_CONFIGS = [dict(case=c) for c in ("3d-variants", "plane-stress", "plane-strain", "orthotropic-compliance", "orthotropic-svk", "orthotropic-svk-rotated", "lame")]
 
 
 def _voigt(A):
@@ -469,9 +469,19 @@ def linear(vk, cfg):
             vk.canary("stiffness.compliance==2", ref_einsum("ab,bc->ac", Cv, S), 2 * eye6)
         return
     # orthotropic SVK tangent at F = I through lame_converter_orthotropic
+    # (rotated: the normals of the planes of symmetry are the columns of a rotation about the 3-axis by a free angle --
+    # a NON-symmetric stacked matrix [r1, r2, r3]; the tangent must be the linear-elastic stiffness rotated by R)
+    rotated = case == "orthotropic-svk-rotated"
+    if rotated:
+        tt = vk.reals("t", (), near=0.35, spread=0.2)
+        Rm = M.rotation(tt, 2)
+        rs = [[Rm[i, a] for i in range(3)] for a in range(3)]
+        A = ref_einsum("ia,jb,kc,ld,abcd->ijkl", Rm, Rm, Rm, Rm, A)
+    else:
+        rs = [[1, 0, 0], [0, 1, 0], [0, 0, 1]]
     if not vk.sym:
         lm, mu = fem.constitution.lame_converter_orthotropic(Es, nus, Gs)
-        svk = mt.Hyperelastic(TT.saint_venant_kirchhoff_orthotropic, mu=list(mu), lmbda=list(lm), r1=[1, 0, 0], r2=[0, 1, 0], r3=[0, 0, 1])
+        svk = mt.Hyperelastic(TT.saint_venant_kirchhoff_orthotropic, mu=list(mu), lmbda=list(lm), r1=[float(x) for x in rs[0]], r2=[float(x) for x in rs[1]], r3=[float(x) for x in rs[2]])
         A0 = np.asarray(svk.hessian([EYE.copy(), None])[0])[..., 0, 0]
         vk.ensures_eq("svk-orthotropic-tangent(F=I)==LinearElasticOrthotropic.hessian", A0, A)
         return
@@ -488,7 +498,7 @@ def linear(vk, cfg):
     C = M.sym_matrix(vk, "C")
     f = TT.saint_venant_kirchhoff_orthotropic
     with M.rebound(f):
-        psi = co(f(C, mu=list(mu), lmbda=list(lm), r1=[1, 0, 0], r2=[0, 1, 0], r3=[0, 0, 1]))
+        psi = co(f(C, mu=list(mu), lmbda=list(lm), r1=rs[0], r2=rs[1], r3=rs[2]))
     one = {ring.gen_of(C[i, j]): (1 if i == j else 0) for i, j in TRI}
     w = lambda i, j: 1 if i == j else Fr(1, 2)  # noqa: E731
     # tangent at F = I (S(I) = 0): A_iJkL = 4 d2psi/dC_iJ dC_kL (tensor derivative w.r.t. the symmetric C)
